@@ -14,6 +14,7 @@ package c07snowcodec
 import (
 	"fmt"
 	"math"
+	"sync"
 	"time"
 	_ "time/tzdata"
 
@@ -238,11 +239,26 @@ type CaseCodec struct {
 	Cfg
 	A IDSpec `json:"a"`
 	B IDSpec `json:"b"`
+	// Local, if > 0, is the index (in locs) of the zone the process-local zone (time.Local) is for the duration of the
+	// case; 0 leaves the process zone alone (UTC in the checks). The codec must not depend on it.
+	Local int `json:"local_zone,omitempty"`
 }
 
 func GenCodec(t *rapid.T) CaseCodec {
 	c := CaseCodec{Cfg: genCfg(t)}
 	c.A = genID(t, c.Cfg, "a")
+	switch rapid.IntRange(0, 11).Draw(t, "special") {
+	case 0, 1: // the process zone is a daylight-saving zone; every second such id lies around one of ITS fall-back instants
+		k := rapid.IntRange(0, len(dstNames)-1).Draw(t, "localZone")
+		c.Local = firstDSTLoc + k
+		if rapid.Bool().Draw(t, "aAtFallback") {
+			if ts, ok := genFallbackTS(t, c.Cfg, k, "a", c.A.TS%1000); ok {
+				c.A.TS = ts
+			}
+		}
+	case 2, 3: // a rare calendar day (Shanghai time); the configuration is moved so that the day lies inside its width
+		genCalendar(t, &c)
+	}
 	c.B = c.A
 	switch rapid.IntRange(0, 7).Draw(t, "pairKind") {
 	case 0: // equal
@@ -271,6 +287,75 @@ func GenCodec(t *rapid.T) CaseCodec {
 		c.B = genID(t, c.Cfg, "b")
 	}
 	return c
+}
+
+// genFallbackTS draws a timestamp field within an hour of an instant at which the clocks of dst location k are set
+// back (both passes through the repeated wall-clock interval); false if none lies inside the width.
+func genFallbackTS(t *rapid.T, c Cfg, k int, label string, msPart int64) (int64, bool) {
+	fb := fallBacks[k]
+	if len(fb) == 0 {
+		return 0, false
+	}
+	u := rapid.SampledFrom(fb).Draw(t, label+"Transition") + rapid.Int64Range(-3600, 3599).Draw(t, label+"AroundFallback")
+	if o := u*1000 - c.EpochMs + msPart; o >= 0 && o <= c.tsMax() {
+		return o, true
+	}
+	return 0, false
+}
+
+// Calendar days that are rare among sampled instants. Day 0 of month m+1 is the last day of month m.
+var (
+	calCenturies = []int{2000, 2100, 2200, 2300, 2400}
+	calLeap      = []int{2004, 2024, 2028, 2096, 2104, 2196, 2204, 2296, 2304, 2396, 2404, 2476}
+	calNonLeap   = []int{2001, 2023, 2026, 2027, 2099, 2101, 2199, 2201, 2299, 2301, 2399, 2401}
+	calDays      = [][2]int{{2, 28}, {2, 29}, {2, 29}, {3, 1}, {12, 31}, {1, 1}}
+	calClock     = [][4]int{{0, 0, 0, 0}, {23, 59, 59, 999}, {0, 0, 0, 0}, {23, 59, 59, 999}, {0, 0, 0, 1}, {23, 59, 59, 0}, {12, 0, 0, 500}}
+)
+
+// shanghaiMs is the absolute millisecond count of a wall-clock reading in Asia/Shanghai (the zone of the 24-character
+// form; no transitions from 1992 on, so the reading is unambiguous).
+func shanghaiMs(y, m, d int, clock [4]int) int64 {
+	return time.Date(y, time.Month(m), d, clock[0], clock[1], clock[2], clock[3]*1000000, locs[1]).UnixMilli()
+}
+
+// genCalendar puts the first id on Feb 28/29, Mar 1, Dec 31, Jan 1 or a month end of a century, leap, non-leap or
+// any year, at the first or last millisecond of the day (Shanghai time). If the day is outside the width of the drawn
+// configuration the epoch is moved (inside 2000..2200), then the node width reduced to 8; if it still does not fit the
+// id stays as drawn.
+func genCalendar(t *rapid.T, c *CaseCodec) {
+	var y int
+	switch rapid.IntRange(0, 4).Draw(t, "calYearKind") {
+	case 0, 1:
+		y = rapid.SampledFrom(calCenturies).Draw(t, "calCentury")
+	case 2:
+		y = rapid.SampledFrom(calLeap).Draw(t, "calLeap")
+	case 3:
+		y = rapid.SampledFrom(calNonLeap).Draw(t, "calNonLeap")
+	default:
+		y = rapid.IntRange(2000, 2478).Draw(t, "calYear")
+	}
+	var m, d int
+	if k := rapid.IntRange(0, len(calDays)+1).Draw(t, "calDayKind"); k < len(calDays) {
+		m, d = calDays[k][0], calDays[k][1]
+	} else if k == len(calDays) { // last day of a month
+		m, d = rapid.IntRange(1, 12).Draw(t, "calMonthEnd")+1, 0
+	} else { // first day of a month
+		m, d = rapid.IntRange(1, 12).Draw(t, "calMonthStart"), 1
+	}
+	abs := shanghaiMs(y, m, d, rapid.SampledFrom(calClock).Draw(t, "calClock"))
+	back := genSpread(t, "calEpochBack", Cfg{NodeBits: 8}.tsMax())
+	fits := func() bool { o := abs - c.EpochMs; return o >= 0 && o <= c.tsMax() }
+	if !fits() {
+		c.EpochMs = clamp(abs-back%(c.tsMax()+1), epoch2000UTC, epochMaxGen)
+	}
+	if !fits() {
+		c.NodeBits = 8
+		c.A.Low &= c.lowMax()
+		c.EpochMs = clamp(abs-back, epoch2000UTC, epochMaxGen)
+	}
+	if fits() {
+		c.A.TS = abs - c.EpochMs
+	}
 }
 
 func sign(a, b int64) int {
@@ -369,6 +454,7 @@ func classifyID(res *vkit.Result, c Cfg, s IDSpec) {
 	if (s.TS+c.EpochMs)%1000 != 0 {
 		res.Class("ms-part!=0")
 	}
+	classifyDay(res, s.TS+c.EpochMs)
 	switch {
 	case s.Low == 0:
 		res.Class("low=0")
@@ -381,6 +467,85 @@ func classifyID(res *vkit.Result, c Cfg, s IDSpec) {
 	if s.Low&(int64(1)<<(c.shift()-1)) != 0 {
 		res.Class("low-top-bit-set")
 	}
+}
+
+// classifyDay counts the rare calendar days (Shanghai time) an id falls on.
+func classifyDay(res *vkit.Result, abs int64) {
+	t := instantOfMs(abs).In(locs[1])
+	y, m, d := t.Date()
+	switch {
+	case m == 2 && d == 29:
+		res.Class("day=Feb-29")
+		if y%100 == 0 {
+			res.Class(fmt.Sprintf("day=Feb-29-of-%d", y))
+		}
+	case m == 2 && d == 28:
+		res.Class("day=Feb-28")
+	case m == 3 && d == 1:
+		res.Class("day=Mar-1")
+		if y%100 == 0 && y%400 != 0 {
+			res.Class("day=Mar-1-of-a-non-leap-century-year")
+		}
+	case m == 12 && d == 31:
+		res.Class("day=Dec-31")
+	case m == 1 && d == 1:
+		res.Class("day=Jan-1")
+	case t.AddDate(0, 0, 1).Day() == 1:
+		res.Class("day=month-end")
+	}
+	hh, mm, ss := t.Clock()
+	if hh == 0 && mm == 0 && ss == 0 && t.Nanosecond() == 0 {
+		res.Class("clock=00:00:00.000")
+	} else if hh == 23 && mm == 59 && ss == 59 && t.Nanosecond() == 999000000 {
+		res.Class("clock=23:59:59.999")
+	}
+}
+
+// The process-local zone. time.Local points at a Location inside package time that is filled in lazily from TZ /
+// /etc/localtime; a package that copied the pointer at its own initialisation (var loc = time.Local) keeps seeing
+// that Location. setLocal therefore replaces the CONTENT of that Location (after forcing the lazy initialisation), which
+// is exactly the state of a process started in the other zone, and puts the old content back afterwards. Cases run one
+// at a time in their process; the concurrent part does not touch it.
+var localForced = time.Local.String()
+
+func setLocal(idx int) (restore func()) {
+	if idx <= 0 || idx >= len(locs) || locs[idx] == time.Local {
+		return func() {}
+	}
+	saved := *time.Local
+	*time.Local = *locs[idx]
+	return func() { *time.Local = saved }
+}
+
+func classifyLocal(res *vkit.Result, idx int) {
+	if idx > 0 && idx < len(locs) {
+		res.Class(locClass[idx])
+	}
+}
+
+// locClass / locOddOffset: class label of a process zone, and whether a location's offset has a seconds part.
+var locClass, locOddOffset = func() ([]string, []bool) {
+	names, odd := make([]string, len(locs)), make([]bool, len(locs))
+	for i, l := range locs {
+		names[i] = "process-zone=" + l.String()
+		_, off := time.Unix(epochToday/1000, 0).In(l).Zone()
+		odd[i] = off%60 != 0
+	}
+	return names, odd
+}()
+
+// inFallback reports whether the instant lies in the second pass through a repeated wall-clock interval of locs[idx].
+func inFallback(idx int, absMs int64) bool {
+	if idx < firstDSTLoc || idx >= firstDSTLoc+len(dstNames) {
+		return false
+	}
+	u := absMs / 1000
+	for _, f := range fallBacks[idx-firstDSTLoc] {
+		if u >= f && u < f+1800 {
+			return true
+		}
+	}
+	return false
 }
 
 func classifyCfg(res *vkit.Result, c Cfg) {
@@ -407,6 +572,7 @@ func ExecCodec(c CaseCodec) *vkit.Result {
 	}
 	restore := snowflake.VerifSetConfig(c.EpochMs, c.NodeBits, c.NodeLow)
 	defer restore()
+	defer setLocal(c.Local)()
 
 	ta, na, sa := checkOne(res, c.Cfg, c.A)
 	if res.Fail != nil {
@@ -430,6 +596,10 @@ func ExecCodec(c CaseCodec) *vkit.Result {
 
 	classifyCfg(res, c.Cfg)
 	classifyID(res, c.Cfg, c.A)
+	classifyLocal(res, c.Local)
+	if inFallback(c.Local, c.A.TS+c.EpochMs) {
+		res.Class("id-in-repeated-wall-clock-interval-of-the-process-zone")
+	}
 	switch {
 	case c.A == c.B:
 		res.Class("pair-equal")
@@ -501,6 +671,8 @@ type CaseRange struct {
 	Begin  Instant  `json:"begin"`
 	End    Instant  `json:"end"`
 	Probes []IDSpec `json:"probes"` // extra ids, on top of the ones constructed on every edge
+	// Local: as in CaseCodec - the zone the process-local zone is during the case (0: untouched).
+	Local int `json:"local_zone,omitempty"`
 }
 
 var locs = func() []*time.Location {
@@ -518,6 +690,8 @@ var locs = func() []*time.Location {
 			out = append(out, time.UTC)
 		}
 	}
+	// offsets with a seconds part (the textual forms of an offset have none) and the process-local zone itself
+	out = append(out, time.FixedZone("lmt-east", 8*3600+5*60+43), time.FixedZone("lmt-west", -1), time.Local)
 	return out
 }()
 
@@ -532,13 +706,22 @@ var fallBacks = func() [][]int64 {
 		l := locs[firstDSTLoc+k]
 		start := time.Date(1990, 1, 1, 0, 0, 0, 0, time.UTC).Unix()
 		end := time.Date(2045, 1, 1, 0, 0, 0, 0, time.UTC).Unix()
-		_, prev := time.Unix(start, 0).In(l).Zone()
-		for u := start; u < end; u += 1800 {
-			_, off := time.Unix(u, 0).In(l).Zone()
-			if off < prev {
-				out[k] = append(out[k], u)
+		// day steps find the days on which the offset drops, half-hour steps inside such a day find the instant
+		// (transitions of these zones fall on whole half hours)
+		_, prevDay := time.Unix(start, 0).In(l).Zone()
+		for d := start; d < end; d += 86400 {
+			_, offDay := time.Unix(d+86400, 0).In(l).Zone()
+			if offDay < prevDay {
+				prev := prevDay
+				for u := d + 1800; u <= d+86400; u += 1800 {
+					_, off := time.Unix(u, 0).In(l).Zone()
+					if off < prev {
+						out[k] = append(out[k], u)
+					}
+					prev = off
+				}
 			}
-			prev = off
+			prevDay = offDay
 		}
 	}
 	return out
@@ -557,7 +740,9 @@ func (c Cfg) hasInstant(i Instant) bool {
 	return i.Off >= 0 && i.Off <= c.tsMax() && i.Ns >= 0 && i.Ns <= 999999
 }
 
-func genInstant(t *rapid.T, c Cfg, label string) Instant {
+// genInstant draws an instant; localK >= 0 names the daylight-saving location that is the process zone of the case:
+// every second instant then lies around one of its fall-back moments.
+func genInstant(t *rapid.T, c Cfg, label string, localK int) Instant {
 	off := genTS(t, c, label)
 	// choose the position inside the second (of the absolute time, which is what
 	// gets truncated)
@@ -585,13 +770,18 @@ func genInstant(t *rapid.T, c Cfg, label string) Instant {
 	in := Instant{Off: off, Ns: ns, Loc: rapid.IntRange(0, len(locs)-1).Draw(t, label+"Loc")}
 	// one instant in eight lies around a moment at which a daylight-saving location sets its clocks back (first or
 	// second pass through the repeated wall-clock interval), carried in that location
+	if localK >= 0 {
+		if rapid.Bool().Draw(t, label+"LocalFallback") {
+			if o, ok := genFallbackTS(t, c, localK, label, off%1000); ok {
+				in.Off = o // carried in any location: the process zone is not the one of the value
+			}
+		}
+		return in
+	}
 	if rapid.IntRange(0, 7).Draw(t, label+"Fallback") == 0 {
 		k := rapid.IntRange(0, len(dstNames)-1).Draw(t, label+"DstLoc")
-		if fb := fallBacks[k]; len(fb) > 0 {
-			u := rapid.SampledFrom(fb).Draw(t, label+"Transition") + rapid.Int64Range(-3600, 3599).Draw(t, label+"AroundFallback")
-			if o := u*1000 - c.EpochMs + off%1000; o >= 0 && o <= c.tsMax() {
-				in.Off, in.Loc = o, firstDSTLoc+k
-			}
+		if o, ok := genFallbackTS(t, c, k, label, off%1000); ok {
+			in.Off, in.Loc = o, firstDSTLoc+k
 		}
 	}
 	return in
@@ -600,7 +790,12 @@ func genInstant(t *rapid.T, c Cfg, label string) Instant {
 func GenRange(t *rapid.T) CaseRange {
 	c := CaseRange{Cfg: genCfg(t)}
 	max := c.tsMax()
-	c.Begin = genInstant(t, c.Cfg, "begin")
+	localK := -1
+	if rapid.IntRange(0, 5).Draw(t, "localKind") == 0 {
+		localK = rapid.IntRange(0, len(dstNames)-1).Draw(t, "localZone")
+		c.Local = firstDSTLoc + localK
+	}
+	c.Begin = genInstant(t, c.Cfg, "begin", localK)
 	c.End = c.Begin
 	switch rapid.IntRange(0, 7).Draw(t, "endKind") {
 	case 0: // the same instant
@@ -616,7 +811,7 @@ func GenRange(t *rapid.T) CaseRange {
 			c.End.Off = c.Begin.Off
 		}
 	default:
-		e := genInstant(t, c.Cfg, "end")
+		e := genInstant(t, c.Cfg, "end", localK)
 		if e.Off < c.Begin.Off || (e.Off == c.Begin.Off && e.Ns < c.Begin.Ns) {
 			c.Begin, e = e, c.Begin
 		}
@@ -714,6 +909,7 @@ func ExecRange(c CaseRange) *vkit.Result {
 	}
 	restore := snowflake.VerifSetConfig(c.EpochMs, c.NodeBits, c.NodeLow)
 	defer restore()
+	defer setLocal(c.Local)()
 
 	bAbs, eAbs := c.EpochMs+c.Begin.Off, c.EpochMs+c.End.Off
 	bSec, eSec := bAbs/1000, eAbs/1000 // both positive: floor
@@ -759,6 +955,20 @@ func ExecRange(c CaseRange) *vkit.Result {
 	}
 	if c.Begin.Off == 0 {
 		res.Class("begin=epoch")
+	}
+	classifyLocal(res, c.Local)
+	if inFallback(c.Local, bAbs) || inFallback(c.Local, eAbs) {
+		res.Class("instant-in-repeated-wall-clock-interval-of-the-process-zone")
+	}
+	for _, l := range []int{c.Begin.Loc, c.End.Loc} {
+		if l >= 0 && l < len(locs) {
+			if locOddOffset[l] {
+				res.Class("instant-carried-with-an-offset-that-has-seconds")
+			}
+			if locs[l] == time.Local {
+				res.Class("instant-carried-in-the-process-zone")
+			}
+		}
 	}
 	res.NonTrivial = sub
 	return res
@@ -868,8 +1078,143 @@ func ExecSetup(c CaseSetup) *vkit.Result {
 }
 
 // ---------------------------------------------------------------------------
+// part 4: every year of the width on its rare calendar days (complete enumeration of that grid)
 
-const codecRule = "rapid: configuration (node bits 8/9/10 x node-at-lowest x epoch: 2000-01-01, package default, 2026, any second / any millisecond in 2000..2026, or a future epoch up to 2200) through VerifSetConfig; two ids built from (timestamp, low bits): timestamp from {0, 1, 2^k-1/2^k/2^k+1, top of the width and the 100 000 ms below it, both sides of the year-2262 nanosecond horizon, anywhere behind it, around today, rapid-uniform, evenly spread}, low bits from {0, all ones, around 10^6, rapid-uniform, evenly spread, node x step with each from {0,1,max,top bit,rapid-uniform,evenly spread}}; the second id is equal / same timestamp / same low bits / numerically adjacent / adjacent timestamp with opposing low bits / node and step exchanged / independent. Oracle per id: IDFields in range and recombining to the id by the documented layout, IDParse = field+epoch, IDParseEx the same instant, CnStyle 24 digits, FromChStyle(CnStyle(id)) == id; per pair: id order == (timestamp, remaining bits) order. Non-trivial: first id has non-zero node and step bits and timestamp >= 2^20; distinct = distinct case JSON"
+// CalendarCases enumerates, for every node width and the epochs 2000 / 2026 / 2200, every calendar year the width
+// reaches on Jan 1, Feb 28, Feb 29 (leap years), Mar 1 and Dec 31, and the century, first, last and every 25th year
+// on all twelve month ends; the first id of a case is the first millisecond of that day in Shanghai time, the second
+// the last one. Days that do not lie completely inside the width are left out.
+func CalendarCases() []CaseCodec {
+	var out []CaseCodec
+	for i, nb := range []uint8{8, 9, 10} {
+		for j, ep := range []int64{epoch2000UTC, epochToday, epochMaxGen} {
+			c := Cfg{EpochMs: ep, NodeBits: nb, NodeLow: (i+j)%2 == 1}
+			y0 := instantOfMs(ep).In(locs[1]).Year()
+			y1 := instantOfMs(ep + c.tsMax()).In(locs[1]).Year()
+			n := 0
+			add := func(y, m, d int) {
+				a := IDSpec{TS: shanghaiMs(y, m, d, [4]int{0, 0, 0, 0}) - ep}
+				b := IDSpec{TS: shanghaiMs(y, m, d, [4]int{23, 59, 59, 999}) - ep}
+				if a.TS < 0 || b.TS > c.tsMax() {
+					return
+				}
+				lows := []int64{0, c.lowMax(), 999999, c.compose(c.nodeMax(), 1)}
+				a.Low, b.Low = lows[n%4], lows[(n+1)%4]
+				n++
+				out = append(out, CaseCodec{Cfg: c, A: a, B: b})
+			}
+			for y := y0; y <= y1; y++ {
+				add(y, 1, 1)
+				add(y, 2, 28)
+				if y%4 == 0 && (y%100 != 0 || y%400 == 0) {
+					add(y, 2, 29)
+				}
+				add(y, 3, 1)
+				add(y, 12, 31)
+				if y%100 == 0 || y%25 == 0 || y <= y0+1 || y >= y1-1 {
+					for m := 1; m <= 12; m++ {
+						add(y, m+1, 0)
+						add(y, m, 1)
+					}
+				}
+			}
+		}
+	}
+	return out
+}
+
+// ---------------------------------------------------------------------------
+// part 5: the codec functions called from several goroutines at once
+
+// CaseConc is one configuration and, per goroutine, the ids it converts. The codec functions only read the
+// configuration, so calling them concurrently (the configuration is not changed meanwhile) must give every goroutine
+// the answers it gets alone.
+type CaseConc struct {
+	Cfg
+	IDs    [][]IDSpec `json:"ids"`    // one list per goroutine
+	Rounds int        `json:"rounds"` // every goroutine walks its list this many times
+}
+
+func GenConc(t *rapid.T) CaseConc {
+	c := CaseConc{Cfg: genCfg(t), Rounds: rapid.IntRange(1, 4).Draw(t, "rounds")}
+	g := rapid.IntRange(4, 8).Draw(t, "goroutines")
+	for i := 0; i < g; i++ {
+		var ids []IDSpec
+		for j, n := 0, rapid.IntRange(4, 16).Draw(t, "nIDs"); j < n; j++ {
+			ids = append(ids, genID(t, c.Cfg, "id"))
+		}
+		c.IDs = append(c.IDs, ids)
+	}
+	return c
+}
+
+func ExecConc(c CaseConc) *vkit.Result {
+	res := &vkit.Result{}
+	if !c.Cfg.valid() || len(c.IDs) < 1 || len(c.IDs) > 16 || c.Rounds < 1 || c.Rounds > 16 {
+		res.Skip("case-outside-domain")
+		return res
+	}
+	for _, ids := range c.IDs {
+		for _, s := range ids {
+			if !c.Cfg.has(s) {
+				res.Skip("case-outside-domain")
+				return res
+			}
+		}
+	}
+	restore := snowflake.VerifSetConfig(c.EpochMs, c.NodeBits, c.NodeLow)
+	defer restore()
+
+	results := make([]*vkit.Result, len(c.IDs))
+	start := make(chan struct{})
+	var wg sync.WaitGroup
+	for g := range c.IDs {
+		results[g] = &vkit.Result{}
+		wg.Add(1)
+		go func(r *vkit.Result, ids []IDSpec) {
+			defer wg.Done()
+			defer func() {
+				if p := recover(); p != nil {
+					r.Failf("panic", "panic: %v", p)
+				}
+			}()
+			<-start
+			for round := 0; round < c.Rounds && r.Fail == nil; round++ {
+				for _, s := range ids {
+					// fields / recombination, IDParse, IDParseEx, CnStyle 24 digits, FromChStyle(CnStyle(id)) == id
+					if checkOne(r, c.Cfg, s); r.Fail != nil {
+						return
+					}
+					// TimeIDRange of the id's own instant: the id of the first millisecond of that second is inside,
+					// the millisecond before and the following second are outside
+					abs := s.TS + c.EpochMs
+					at := instantOfMs(abs)
+					mn, mx := snowflake.TimeIDRange(at)
+					checkInterval(r, "TimeIDRange", c.Cfg, mn, mx, abs/1000, abs/1000, edgeProbes(c.Cfg, abs/1000, abs/1000),
+						fmt.Sprintf("TimeIDRange(%s)", at.UTC().Format(time.RFC3339Nano)))
+					if r.Fail != nil {
+						return
+					}
+				}
+			}
+		}(results[g], c.IDs[g])
+	}
+	close(start)
+	wg.Wait()
+	for g, r := range results {
+		if r.Fail != nil {
+			return res.Failf(r.Fail.Site, "goroutine %d of %d (all converting their own ids under one configuration): %s", g+1, len(results), r.Fail.Msg)
+		}
+	}
+	classifyCfg(res, c.Cfg)
+	res.Class(fmt.Sprintf("goroutines=%d", len(c.IDs)))
+	res.NonTrivial = len(c.IDs) >= 2
+	return res
+}
+
+// ---------------------------------------------------------------------------
+
+const codecRule = "rapid: configuration (node bits 8/9/10 x node-at-lowest x epoch: 2000-01-01, package default, 2026, any second / any millisecond in 2000..2026, or a future epoch up to 2200) through VerifSetConfig; two ids built from (timestamp, low bits): timestamp from {0, 1, 2^k-1/2^k/2^k+1, top of the width and the 100 000 ms below it, both sides of the year-2262 nanosecond horizon, anywhere behind it, around today, rapid-uniform, evenly spread}, low bits from {0, all ones, around 10^6, rapid-uniform, evenly spread, node x step with each from {0,1,max,top bit,rapid-uniform,evenly spread}}; one case in six runs with the process-local zone replaced by New York / Berlin / Lord Howe (every second first id then within an hour of a fall-back instant of that zone), one in six has the first id on a rare calendar day in Shanghai time (Feb 28/29, Mar 1, Dec 31, Jan 1, month ends/starts of century 2000-2400, leap, non-leap or any year, first/last millisecond of the day; epoch moved or node width reduced so that the day is inside the width); the second id is equal / same timestamp / same low bits / numerically adjacent / adjacent timestamp with opposing low bits / node and step exchanged / independent. Oracle per id: IDFields in range and recombining to the id by the documented layout, IDParse = field+epoch, IDParseEx the same instant, CnStyle 24 digits, FromChStyle(CnStyle(id)) == id; per pair: id order == (timestamp, remaining bits) order. Non-trivial: first id has non-zero node and step bits and timestamp >= 2^20; distinct = distinct case JSON"
 
 var PartCodec = &vkit.Part[CaseCodec]{
 	Property: Property, Name: "codec",
@@ -886,9 +1231,33 @@ var PartGrid = &vkit.Part[CaseCodec]{
 
 var PartRange = &vkit.Part[CaseRange]{
 	Property: Property, Name: "ranges",
-	Rule:  "rapid: configuration as part codec; begin <= end instants given as millisecond offset from the epoch inside the width (same mixture as the timestamps, then moved to .000/.001/.999/any position of the absolute second) plus 0..999999 ns, carried in one of four time zones; end = begin / same second / next seconds / top of the width / independent; 0-6 extra probe ids around both edges. TimeBetweenID(begin,end), TimeIDRange(begin), TimeIDRange(end) are each decided on 19 constructed ids (first ms of the first second with low 0/ones/mixed, the ms before it, first ms of the last second, first ms of the second after it, the middle, id 0 and the largest id) plus the probes: timestamp in [floor(b) s, floor(e) s] => inside, timestamp < floor(b) s or >= floor(e) s + 1000 ms => outside, rest of the last second not asserted. Non-trivial: begin or end has a non-zero sub-second part; distinct = distinct case JSON",
+	Rule:  "rapid: configuration as part codec; begin <= end instants given as millisecond offset from the epoch inside the width (same mixture as the timestamps, then moved to .000/.001/.999/any position of the absolute second) plus 0..999999 ns, carried in one of ten locations (UTC, Shanghai, -11:30, +14, New York, Berlin, Lord Howe, +08:05:43, -00:00:01, the process-local zone), one in eight within an hour of a fall-back instant of a daylight-saving location and carried in it; one case in six runs with the process-local zone replaced by New York / Berlin / Lord Howe and every second instant within an hour of a fall-back instant of that zone; end = begin / same second / next seconds / top of the width / independent; 0-6 extra probe ids around both edges. TimeBetweenID(begin,end), TimeIDRange(begin), TimeIDRange(end) are each decided on 19 constructed ids (first ms of the first second with low 0/ones/mixed, the ms before it, first ms of the last second, first ms of the second after it, the middle, id 0 and the largest id) plus the probes: timestamp in [floor(b) s, floor(e) s] => inside, timestamp < floor(b) s or >= floor(e) s + 1000 ms => outside, rest of the last second not asserted. Non-trivial: begin or end has a non-zero sub-second part; distinct = distinct case JSON",
 	Quick: 80000, Thorough: 200000,
 	Gen: GenRange, Exec: ExecRange,
+}
+
+var PartCalendar = &vkit.Part[CaseCodec]{
+	Property: Property, Name: "codec-calendar",
+	Rule: "complete enumeration of a calendar grid (not of the property's domain): 3 node widths x epochs {2000, 2026, 2200} (alternating field order) x every calendar year the timestamp width reaches x {Jan 1, Feb 28, Feb 29 in leap years, Mar 1, Dec 31}, plus all twelve month ends and month starts of the century years, every 25th year and the first and last two years of the width; Shanghai time; first id at 00:00:00.000, second id at 23:59:59.999 of that day, low bits rotating through {0, all ones, 999999, node max/step 1}; same oracle as part codec. Non-trivial: as part codec",
+	Gen:  GenCodec, Exec: ExecCodec,
+}
+
+const concRule = "rapid: configuration as part codec, fixed for the case; 4-8 goroutines, each with 4-16 ids of its own (same mixture as part codec), walk their lists 1-4 times after a common start signal: per id the single-id oracle of part codec (IDFields in range / recombine, IDParse, IDParseEx, CnStyle 24 digits, FromChStyle(CnStyle(id)) == id) and TimeIDRange of the id's instant decided on the 19 constructed edge ids of part ranges. The verdict is the answers, not the timing: every goroutine must get what it gets alone. Non-trivial: at least two goroutines"
+
+var PartConc = &vkit.Part[CaseConc]{
+	Property: Property, Name: "concurrent",
+	Rule:  concRule,
+	Quick: 600, Thorough: 3000,
+	Gen: GenConc, Exec: ExecConc,
+}
+
+// PartConcRace is the same part run from the binary built with -race (a data race inside the codec is reported by the
+// detector and ends the process with exit code 66).
+var PartConcRace = &vkit.Part[CaseConc]{
+	Property: Property, Name: "race-concurrent",
+	Rule:  concRule + "; run under the Go race detector",
+	Quick: 150, Thorough: 800,
+	Gen: GenConc, Exec: ExecConc,
 }
 
 var PartSetup = &vkit.Part[CaseSetup]{
